@@ -22,6 +22,9 @@ type Analysis struct {
 	// escapes: module functions referenced as values (method values, function arguments): they have callers the
 	// syntactic call count does not see
 	escapes map[*FuncInfo]bool
+	// oneIter: loops are walked once for one arbitrary element (rule DEF-COUNTS only)
+	oneIter  bool
+	oneIterN int
 	roleTest map[*FuncInfo]bool
 	hoCache map[*FuncInfo]bool
 	Prog    *Program
